@@ -272,7 +272,7 @@ pub fn run_check(tier: Tier, _replay: Option<String>) -> i32 {
         "C18",
         tier,
         "fault_enumeration",
-        "DiagMclmc / LowRankMclmc x dims {2,3,7} x trajectory kinds x step size {0.1,0.5,1.3} x L {0.6,3} x subsample {0,0.4,1} x dynamic step size x switch fraction {0,0.3,1}; fault-free histories plus a density fault (recoverable error / huge drop) at every evaluation index of the first draws and at two successive evaluations; every esh_momentum_update / array_normalize / momentum draw observed through a delegating Math wrapper. distinct = (kind, dynamic, diverging, retried) classes",
+        "DiagMclmc / LowRankMclmc x dims {2,3,7} x trajectory kinds x step size {0.1,0.5,1.3} x L {0.6,3} x subsample {0,0.4,1} x dynamic step size x switch fraction {0,0.3,1} x num_tune {6; T: 0,1,2,9}; fault-free histories plus a density fault (recoverable error / huge drop) at every evaluation index of the first draws, at two successive evaluations and (T) at every pair up to five evaluations apart; every esh_momentum_update / array_normalize / momentum draw observed through a delegating Math wrapper. distinct = (kind, dynamic, diverging, retried) classes",
     );
     report.assume("ESH reference compared when delta = step*|g|/(d-1) < 30 (beyond that the update saturates to +-g/|g|)");
     let mut cfgs = vec![];
@@ -288,19 +288,28 @@ pub fn run_check(tier: Tier, _replay: Option<String>) -> i32 {
                                     if lowrank && (tier == Tier::Quick) && !(step == 0.5 && length == 3.0) {
                                         continue;
                                     }
-                                    cfgs.push(Cfg {
-                                        name: format!("{}-d{dim}-{kind:?}-eps{step}-L{length}-f{subsample}-dyn{dynamic}-sw{sf}", if lowrank { "lowrank" } else { "diag" }),
-                                        lowrank,
-                                        dim,
-                                        kind,
-                                        step,
-                                        length,
-                                        subsample,
-                                        dynamic,
-                                        switch_fraction: sf,
-                                        num_tune: 6,
-                                        max_energy_error: 1000.0,
-                                    });
+                                    // (round 13) warmup lengths around the switch draw: none, one draw,
+                                    // the usual six, and nine (switch draw 2 for fraction 0.3)
+                                    let tunes: Vec<u64> = if kind == MclmcTrajectoryKind::EuclideanEarlyThenMicrocanonical {
+                                        tier.pick(vec![6, 1], vec![6, 0, 1, 2, 9])
+                                    } else {
+                                        tier.pick(vec![6], vec![6, 0])
+                                    };
+                                    for num_tune in tunes {
+                                        cfgs.push(Cfg {
+                                            name: format!("{}-d{dim}-{kind:?}-eps{step}-L{length}-f{subsample}-dyn{dynamic}-sw{sf}-tune{num_tune}", if lowrank { "lowrank" } else { "diag" }),
+                                            lowrank,
+                                            dim,
+                                            kind,
+                                            step,
+                                            length,
+                                            subsample,
+                                            dynamic,
+                                            switch_fraction: sf,
+                                            num_tune,
+                                            max_energy_error: 1000.0,
+                                        });
+                                    }
                                 }
                             }
                         }
@@ -313,16 +322,36 @@ pub fn run_check(tier: Tier, _replay: Option<String>) -> i32 {
     for (ci, c) in cfgs.iter().enumerate() {
         jobs.push((ci, vec![], "nofault".into()));
         // fault sweep over the evaluations of the first draws (cheap configurations only)
-        let sweep = c.step == 0.5 && c.length == 3.0 && c.subsample >= 0.4 && (tier == Tier::Thorough || (!c.lowrank && c.dim == 2));
+        // Q: the cheap corner; T (round 13): every configuration of dimension <= 3 whose first three
+        // draws take at most 40 evaluations, and the cheap corner in dimension 7
+        let cheap_corner = c.step == 0.5 && c.length == 3.0 && c.subsample >= 0.4;
+        let sweep = match tier {
+            Tier::Quick => cheap_corner && c.num_tune == 6 && !c.lowrank && c.dim == 2,
+            Tier::Thorough => cheap_corner || c.dim <= 3,
+        };
         if sweep {
             if let Ok((base, n_init)) = run(c, &[], 3) {
                 let end = base.last().map(|d| d.n_eval_after).unwrap_or(n_init);
+                if !cheap_corner && end - n_init > 40 {
+                    continue;
+                }
                 for k in n_init..end {
                     for f in [FaultKind::Recoverable, FaultKind::HugeDrop] {
                         jobs.push((ci, vec![(k, f)], format!("k{k}-{}", f.name())));
                     }
                     jobs.push((ci, vec![(k, FaultKind::Recoverable), (k + 1, FaultKind::Recoverable)], format!("k{k}+k{}-recoverable", k + 1)));
                     jobs.push((ci, vec![(k, FaultKind::Recoverable), (k + 2, FaultKind::HugeDrop)], format!("k{k}+k{}-mixed", k + 2)));
+                    if tier == Tier::Thorough && cheap_corner {
+                        // every pair of faults up to five evaluations apart, both kinds
+                        for gap in 1..=5u64 {
+                            for (f1, f2) in [(FaultKind::HugeDrop, FaultKind::Recoverable), (FaultKind::HugeDrop, FaultKind::HugeDrop), (FaultKind::Recoverable, FaultKind::Recoverable)] {
+                                if gap == 1 && f1 == FaultKind::Recoverable && f2 == FaultKind::Recoverable {
+                                    continue;
+                                }
+                                jobs.push((ci, vec![(k, f1), (k + gap, f2)], format!("k{k}-{}+k{}-{}", f1.name(), k + gap, f2.name())));
+                            }
+                        }
+                    }
                 }
             }
         }
